@@ -11,7 +11,7 @@ VARIABLES sc, phase, status, stdout, visited
 vars == <<sc, phase, status, stdout, visited>>
 
 Graphs == {"single", "chain", "diamond", "wide", "self", "cycle2", "missing", "dirtarget"}
-Contents == {"valid", "empty", "syntax", "model", "lifecycle", "noprice", "accrualInverted", "accrualUnopened", "year1", "binary", "noTransactions"}
+Contents == {"valid", "empty", "syntax", "model", "lifecycle", "noprice", "accrualInverted", "accrualUnopened", "zeroPrice", "year1", "binary", "noTransactions"}
 Cmds == {"check", "checkwrite", "balance", "balanceV", "print", "format", "infer", "transcode", "returns", "weights"}
 FlagClasses == {"none", "inverted", "lastNeg", "lastZero", "unknownV", "noV", "mapNeg", "mapSuffixNeg", "digitsNeg", "digitsHuge", "digitsMin", "lastHuge"}
 ReportCmds == {"balance", "balanceV", "print", "transcode", "infer", "checkwrite"}
